@@ -60,8 +60,6 @@ def run(ctx):
                           overrides=ctx.pick({}, {"MaxLen": 3, "Alphabet": "{0, 9, 10, 13, 32, 58, 59, 61, 97, 127, 233}"}))
     cases = [(extra["cfg"]["api"], extra["cfg"]["x"]) for extra, path in paths if len(path) == 1]
     jobs = [(i + 1, api, x, False) for i, (api, x) in enumerate(cases)]
-    traces = [t for t in framework.pool_map(_job, jobs) if t]
-    ctx.validate(FAM, "Trace_HeaderInject", "Trace_HeaderInject.cfg", traces, label="s2c", sig_fn=sig_of)
     ctx.cov["exhaustive"] = True
     # random longer strings, also with a flush before finish
     n = ctx.pick(2500, 30000)
@@ -82,8 +80,8 @@ def run(ctx):
         if api == "set_header_bytes":
             x = [c for c in x if c < 256]
         rjobs.append((base + i + 1, api, x, api not in ("redirect", "conn_reason", "wsgi_reason") and rng.random() < 0.3))
-    rtraces = [t for t in framework.pool_map(_job, rjobs) if t]
-    ctx.validate(FAM, "Trace_HeaderInject", "Trace_HeaderInject.cfg", rtraces, label="c2s", sig_fn=sig_of)
+    traces = [t for t in framework.pool_map(_job, jobs + rjobs) if t]
+    ctx.validate(FAM, "Trace_HeaderInject", "Trace_HeaderInject.cfg", traces, label="s2c+c2s", sig_fn=drv.with_kind(sig_of, base + 1))
     ctx.cov["rule"] = ("cases: 14 API paths (incl. reason phrase through a direct write_headers call and through WSGIContainer) x every string of length <= %d over the class alphabet (NUL, C0, HTAB, LF, CR, SP, "
                        "separators, VCHAR, DEL, C1, latin-1) plus one special code point (incl. U+010A, U+010D, U+2028) at the "
                        "start/middle/end of a benign string; plus seeded random strings up to 60 code points with classic "
